@@ -41,7 +41,30 @@ def _load_property(pid):
     return importlib.import_module(f"props.{pid}")
 
 
+class _UnitTimeout(BaseException):
+    pass
+
+
 def _run_task(task):
+    pid, cname, iname, seed, tier = task
+    import signal
+
+    limit = int(float(os.environ.get("VERIF_TASK_TIMEOUT", "600" if tier == "quick" else "3600")))
+
+    def _alarm(signum, frame):
+        raise _UnitTimeout()
+
+    signal.signal(signal.SIGALRM, _alarm)
+    signal.alarm(limit)
+    try:
+        return _run_task_inner(task)
+    except _UnitTimeout:
+        return _error_result(task, f"checker-error: verification unit did not finish within {limit}s (undecided, not a violation)")
+    finally:
+        signal.alarm(0)
+
+
+def _run_task_inner(task):
     pid, cname, iname, seed, tier = task
     try:
         mod = _load_property(pid)
@@ -138,7 +161,9 @@ def main(argv=None):
         pool = ctx.Pool(min(args.jobs, len(tasks)), initializer=_worker_init, maxtasksperchild=8)
         try:
             pending = [(t, pool.apply_async(_run_task, (t,))) for t in tasks]
-            deadline = time.time() + task_timeout
+            # every unit has its own time limit (alarm inside the worker); the parent only guards against a stuck pool
+            rounds = -(-len(tasks) // max(1, min(args.jobs, len(tasks))))
+            deadline = time.time() + task_timeout * (rounds + 1)
             for t, ar in pending:
                 try:
                     results.append(ar.get(timeout=max(1.0, deadline - time.time())))
